@@ -69,7 +69,7 @@ def main(argv=None):
             print(f"VIOLATION property={prop} replay={path} signature={sig}", file=out, flush=True)
     for n in res.get("notes", []):
         print(f"NOTE: {n}", file=out, flush=True)
-    if not a.replay:
+    if not a.replay and os.environ.get("VF_REPO", "/repo") == "/repo":       # evidence only describes runs against /repo itself
         cov = res["coverage"]
         cov.setdefault("known_findings_seen", sorted(seen_known))
         evidence.write(prop, a.tier if a.tier in ("quick", "thorough") else "quick", a.seed, res["level"], cov,
